@@ -480,7 +480,8 @@ impl Val {
         match (a.as_ref(), b.as_ref()) {
             (Val::Number(a), Val::Number(b)) => Val::Number(a * b),
             (Val::String(a), Val::Number(b)) if *b >= 0.0 => Val::from(
-                repeat_n(a.chars(), *b as usize)
+                // nothing to repeat in an empty string, however large the count
+                repeat_n(a.chars(), if a.is_empty() { 0 } else { *b as usize })
                     .flatten()
                     .collect::<String>(),
             ),
